@@ -147,6 +147,7 @@ class Ctx:
         """Build the property modules, audit axioms of every theorem in them, grep forbidden tokens.
         Records obligations/discharged. Returns True iff everything checks."""
         ok_all = True
+        prop_modules = list(prop_modules) + [m for m in self.extra_prop_modules() if m not in prop_modules]
         self.checker_cmd = "cd /verif/lean && lake build %s && lake env lean <generated #print axioms file>" % " ".join(prop_modules)
         ok, out = self.lean_build(prop_modules)
         thms = []
@@ -211,6 +212,19 @@ class Ctx:
             else:
                 self.trusted.append("leanchecker re-checked " + " ".join(prop_modules))
         return ok_all
+
+    def extra_prop_modules(self):
+        """Additional property modules proved/audited with this property (deepening work added after the check
+        was written): checks/extra_props.d/<id>.json = ["AlgoVerif.Props.X", …] and checks/extra_props.json = {id: […]}.
+        A listed module whose source file does not exist yet is ignored."""
+        mods = []
+        d = os.path.join(VERIF, "checks", "extra_props.d", self.prop + ".json")
+        if os.path.exists(d):
+            mods += json.load(open(d))
+        g = os.path.join(VERIF, "checks", "extra_props.json")
+        if os.path.exists(g):
+            mods += json.load(open(g)).get(self.prop, [])
+        return [m for m in mods if os.path.exists(os.path.join(LEAN, m.replace(".", "/") + ".lean"))]
 
     def _transitive_sources(self, modules):
         seen, todo, res = set(), list(modules), []
